@@ -153,8 +153,9 @@ func TestC06_Bodies(t *testing.T) {
 					}
 				}
 				scanDyn(tree)
-				u1, _ := v1.Unmark()
-				wholeMarkedIterable := placement == gen.MarkTop && u1.IsKnown() && !u1.IsNull() && (u1.CanIterateElements() || u1.Type().IsObjectType())
+				// (the for_each collection may be the variable itself or a container inside it
+				// that carries the mark as a whole, e.g. secret.tags with element-level placement)
+				wholeMarkedIterable := hasMarkedContainer(ctx1.Variables[secret]) || hasMarkedContainer(ctx2.Variables[secret])
 				switch {
 				case dynOverSecret && wholeMarkedIterable && c.Known("dynblock-marked-for-each-block-count-unmarked"):
 					c.Class("excluded_known_dynamic_block_count")
